@@ -60,6 +60,8 @@ type runSpec struct {
 	Sep          string    `json:"separator"`
 	StartYear    int       `json:"start_year_on_batch_line,omitempty"`
 	BadDateLine  string    `json:"line_with_unparsable_date,omitempty"`
+	BlankOptionalYear int  `json:"year_file_with_optional_columns_blank,omitempty"`
+	BlankOptionalCols string `json:"optional_columns_blank_in_that_year,omitempty"` // SUND, VERD or SUND+VERD
 	ExtraDay     string    `json:"extra_line,omitempty"`
 }
 
@@ -413,6 +415,32 @@ func genRunCase(r *vh.Rng, name, kind string, layout int, fixed *[4]proj.Date) *
 			}
 		}
 	}
+	// one-file-per-year layout: an optional column that has values in the file of one year and only the missing-value
+	// code in the file of a later year (the reader's has-column flags and LoadYear's "copy only if present" meet here)
+	if layout == 0 && fixed == nil && (s.SunCol || s.VerdCol) && r.Chance(0.4) {
+		y0, y1 := s.Recs[0].fileYear(), s.Recs[len(s.Recs)-1].fileYear()
+		if y1 > y0 {
+			y := r.Range(y0+1, y1)
+			blankSun, blankVerd := s.SunCol && (!s.VerdCol || r.Chance(0.6)), s.VerdCol && (!s.SunCol || r.Chance(0.6))
+			for i := range s.Recs {
+				if s.Recs[i].fileYear() == y {
+					if blankSun {
+						s.Recs[i].Sun = wxNone
+					}
+					if blankVerd {
+						s.Recs[i].Verd = wxNone
+					}
+				}
+			}
+			rc.Spec.BlankOptionalYear = y
+			if blankSun {
+				rc.Spec.BlankOptionalCols = "SUND"
+			}
+			if blankVerd {
+				rc.Spec.BlankOptionalCols += "+VERD"
+			}
+		}
+	}
 	p.Weather = nil
 	s.renumber()
 	rc.S = s
@@ -678,6 +706,17 @@ func (rc *runCase) checkDays(o *runOut, viol func(sig, what string)) (aligned in
 				// the missing-value code itself must not be consumed as a measurement
 				if got == wxNone {
 					viol(fmt.Sprintf("value:%s-sentinel-consumed:fmt%d", name, L), fmt.Sprintf("%v: %s is missing in the input on this and an adjacent day; the day consumes the missing-value code %v itself", date, name, got))
+				} else if got != 0 && L == 0 && rc.Spec.BlankOptionalYear == date.Y && strings.Contains(rc.Spec.BlankOptionalCols, name) {
+					// the year file of this date has no value of this column at all: whatever drives the day comes
+					// from the record of another date
+					src := "no record of this year file"
+					for dy := 1; dy <= 3; dy++ {
+						if o := rc.ByDate[proj.Date{Y: date.Y - dy, M: date.M, D: date.D}]; o != nil && val(o) != wxNone && near(got, val(o)) {
+							src = fmt.Sprintf("the record of %v", o.Date)
+							break
+						}
+					}
+					viol(fmt.Sprintf("value:%s-of-another-date:fmt%d", name, L), fmt.Sprintf("%v: the year file of %d has no %s value; the day is driven by %v, the value of %s", date, date.Y, name, got, src))
 				}
 				return
 			}
